@@ -120,6 +120,9 @@ func (f *RawMessageFilter) ConsumeCacheMessages(consensusMessagesHandler Consens
 		f.logger.Debug("LHFILTER consuming %d messages from height=%d", len(messages), height)
 	}
 	for _, message := range messages {
+		if f.state.Height() != height { // a cached message ended this height (commit): the rest must not reach the next term
+			break
+		}
 		f.processConsensusMessage(message)
 	}
 	delete(f.futureCache, height)
